@@ -96,7 +96,7 @@ META = {
         "technique": 'Lean 4 invariant proofs + regenerated constants (decide) + differential correspondence at limit boundaries',
     },
     "C16": {
-        "text": "Kernel-checked theorems about the tick decision for every open set, clock reading and Go map/heap order: every due batch (empty, idle, too old, full) is flushed; what is left is below the memory limit; pressure flushes go largest-first. The real tick handler is fired by the harness at chosen points and its flush set compared; the free-running real loop (real ticker, real select) is additionally run under a standing input backlog and the age of every batch at hand-over is measured against maximum age + tick (+ slack). PARTIAL: that a tick is handled within one tick period is Go's ticker/select, not exhibited by the model (measured, not proved).",
+        "text": "Kernel-checked theorems about the tick decision for every open set, clock reading and Go map/heap order: every due batch (empty, idle, too old, full) is flushed; what is left is below the memory limit; pressure flushes go largest-first; and, in a logical-time layer that keeps the batches' create/modify times (compared with the real batches at every tick), for every arrival pattern no open batch is overdue relative to the last handled tick and an overdue batch is dispatched by the next tick (age_bound). The real tick handler is fired by the harness at chosen points and its flush set compared; the free-running real loop (real ticker, real select) is additionally run under a standing input backlog and the age of every batch at hand-over is measured against maximum age + tick (+ slack). PARTIAL: that a tick is handled within one tick period is Go's ticker/select, not exhibited by the model (measured, not proved).",
         "note": 'Trusted: Lean kernel, harness; timing of ticker delivery is outside the model.',
         "technique": 'Lean 4 decision-logic proofs + differential correspondence of the real tick handler',
     },
